@@ -29,7 +29,7 @@ MAX_REPLAYED_VIOLATIONS = int(os.environ.get("VERIF_MAX_VIOLATIONS", "6"))
 # worker side
 # ----------------------------------------------------------------------------------------
 def _encode_args(d):
-    return {k: repr(v) for k, v in d.items()}
+    return {k: (v if k == "__fn__" else repr(v)) for k, v in d.items()}
 
 
 def _profile_collector(store, roots):
@@ -62,18 +62,49 @@ def _worker(ob, conn):
         from vlib import engine, plugin
         plugin.install()
         mod = importlib.import_module(ob["module"])
-        fn = getattr(mod, ob["fn"])
+        fn_names = ob["fn"] if isinstance(ob["fn"], list) else [ob["fn"]]
         encoded = set()
         roots = [os.path.join(REPO, "bisturi") + os.sep, scratch + os.sep]
         sys.setprofile(_profile_collector(encoded, roots))
+        agg = None
+        budget = ob.get("timeout", 120)
         try:
-            res = engine.explore(fn, timeout_s=ob.get("timeout", 120), required_tags=ob.get("required_tags", ()),
-                                 per_path_timeout=ob.get("per_path_timeout", 40.0),
-                                 stop_on_fail=not ob.get("collect_all", False),
-                                 max_fail_sigs=ob.get("max_fail_sigs", 8))
+            for fname in fn_names:
+                fn = getattr(mod, fname) if hasattr(mod, fname) else mod.HARNESSES[fname]
+                res = engine.explore(fn, timeout_s=max(5.0, budget), required_tags=(),
+                                     per_path_timeout=ob.get("per_path_timeout", 40.0),
+                                     stop_on_fail=not ob.get("collect_all", False),
+                                     max_fail_sigs=ob.get("max_fail_sigs", 8))
+                budget -= res.cpu_s
+                d = res.as_dict()
+                for f in d["failures"]:
+                    f[1]["__fn__"] = fname
+                if agg is None:
+                    agg = d
+                    agg["sub"] = 1
+                else:
+                    agg["sub"] += 1
+                    for k in ("paths", "ok_paths", "unknown_paths", "ignored_paths", "cpu_s", "solver_checks", "solver_s"):
+                        agg[k] += d[k]
+                    for t, c in d["tags"].items():
+                        agg["tags"][t] = agg["tags"].get(t, 0) + c
+                    agg["failures"] += d["failures"]
+                    agg["exhausted"] = agg["exhausted"] and d["exhausted"]
+                    rank = {"discharged": 0, "inconclusive": 1, "refuted": 2}
+                    if rank[d["status"]] > rank[agg["status"]]:
+                        agg["status"] = d["status"]
+                    if d["reason"]:
+                        agg["reason"] = (agg["reason"] + "; " if agg["reason"] else "") + fname + ": " + d["reason"]
+                if d["status"] == "refuted" and not ob.get("collect_all", False):
+                    break
         finally:
             sys.setprofile(None)
-        out = res.as_dict()
+        out = agg
+        if out["status"] == "discharged":
+            missing = [t for t in ob.get("required_tags", ()) if t not in out["tags"]]
+            if missing:
+                out["status"] = "inconclusive"
+                out["reason"] = "vacuity guard: no feasible path reached tag(s) %s (seen: %s)" % (missing, sorted(out["tags"]))
         out["id"] = ob["id"]
         out["functions_encoded"] = sorted(encoded)
         out["failures"] = [(txt, _encode_args(cex)) for txt, cex in out.pop("failures")]
@@ -150,7 +181,8 @@ def write_replay(prop, ob, args_repr, failure, n):
     path = os.path.join(d, "%03d.json" % n)
     rec = {
         "property": prop, "obligation": ob["id"], "module": ob["module"], "source": ob["source"],
-        "extra_files": ob.get("extra_files", {}), "fn": ob["fn"], "args": args_repr,
+        "extra_files": ob.get("extra_files", {}),
+        "fn": args_repr.pop("__fn__", ob["fn"] if isinstance(ob["fn"], str) else ob["fn"][0]), "args": args_repr,
         "symbolic_failure": failure, "bound": ob.get("bound", ""),
         "cmd": "%s %s/vlib/replay.py %s" % (REPLAY_PY, VERIF, path),
     }
@@ -253,6 +285,7 @@ def main(argv=None):
     n_replays = 0
     replay_no = 0
     not_replayed = 0
+    known_only_obs = set()
     samples = []
     for ob, r in zip(obs, results):
         st = r.get("status")
@@ -262,6 +295,7 @@ def main(argv=None):
             if r.get("trace"):
                 print(r["trace"])
         ob_viol = 0
+        ob_known = 0
         for failure, args_repr in r.get("failures", []):
             if len(violations) >= MAX_REPLAYED_VIOLATIONS:
                 not_replayed += 1
@@ -279,28 +313,28 @@ def main(argv=None):
             if reproduced:
                 if sig in known_sigs:
                     known_hits.setdefault(sig, path)
+                    ob_known += 1
                 else:
                     violations.append((ob["id"], sig, path, outcome))
                     ob_viol += 1
             else:
                 inconclusive.append((ob["id"], "counterexample did not reproduce on %s: symbolic=%r replay=%r"
                                      % (REPLAY_PY, failure[:200], (outcome or "")[:300])))
+        if ob_known and not ob_viol:
+            known_only_obs.add(ob["id"])
         if st == "inconclusive":
             inconclusive.append((ob["id"], r.get("reason", "")))
         if st == "refuted" and not r.get("failures"):
             inconclusive.append((ob["id"], "refuted without counterexample"))
 
     discharged = sum(1 for r in results if r.get("status") == "discharged")
-    # an obligation whose every failure is a listed known finding and whose exploration completed counts as
-    # "discharged modulo known findings"
+    # a refuted obligation whose exploration stopped at its first counterexample may hide a second, different
+    # violation behind a known finding: obligations that tolerate known findings run with collect_all and must
+    # have finished their exploration
     for ob, r in zip(obs, results):
-        if r.get("status") == "refuted":
-            if r.get("exhausted") and r.get("unknown_paths", 0) == 0:
-                pass
-            elif not any(v[0] == ob["id"] for v in violations):
-                # exploration stopped early (signature cap / timeout) and only known findings were seen
-                if not r.get("exhausted"):
-                    inconclusive.append((ob["id"], "exploration incomplete after known finding(s): " + r.get("reason", "")))
+        if r.get("status") == "refuted" and ob["id"] in known_only_obs:
+            if not (r.get("exhausted") and r.get("unknown_paths", 0) == 0):
+                inconclusive.append((ob["id"], "exploration did not finish behind known finding(s): " + str(r.get("reason", ""))))
 
     for sig, path in sorted(known_hits.items()):
         print("KNOWN-FINDING: property=%s %s (%s) replay=%s" % (prop, sig, known_sigs[sig]["description"], path))
@@ -315,6 +349,8 @@ def main(argv=None):
         print("INCONCLUSIVE property=%s obligation=%s reason=%s" % (prop, oid, why))
 
     wall = time.time() - t_start
+    slow = sorted(zip(obs, results), key=lambda x: -(x[1].get("wall_s") or 0))[:5]
+    print("slowest: " + ", ".join("%s %.0fs/%sp" % (o["id"], r.get("wall_s") or 0, r.get("paths")) for o, r in slow))
     if not args.no_evidence:
         write_evidence(prop, args, seed, built, obs, results, discharged, violations, known_hits, inconclusive,
                        n_replays, selfval, wall, pm)
